@@ -80,9 +80,8 @@ func tryReplay(repo, verif, prop string, ob *Obligation, rp map[string]interface
 		rp["replay"] = "none: no replay driver declared for " + ob.Fn
 		return "none"
 	}
-	if len(ob.Values) == 0 {
-		rp["replay"] = "none: the solver produced no model for this obligation"
-		return "none"
+	if ob.Values == nil {
+		ob.Values = map[string]string{}
 	}
 	tmplPath := filepath.Join(verif, "replay", ob.Replay+".go.tmpl")
 	src, err := renderReplay(tmplPath, ob.Values, ob.Name)
